@@ -245,7 +245,7 @@ int OneDimensionalMeta::getIExact(int level, TypeOneDRule rule){
         case rule_fejer2:             return Maths::pow2(level+1) -2;
 
         case rule_clenshawcurtis:     return (level > 0) ? Maths::pow2(level) : 0;
-        case rule_clenshawcurtis0:    return Maths::pow2(level+1) +1;
+        case rule_clenshawcurtis0:    return Maths::pow2(level+1);
         case rule_rlejadouble2:       return getNumPoints(level,rule_rlejadouble2)-1;
         case rule_rlejadouble4:       return getNumPoints(level,rule_rlejadouble4)-1;
         case rule_fourier:            return (Maths::pow3(level)-1)/2;
